@@ -408,7 +408,16 @@ class Check(PropertyCheck):
                   "b2a_base64, str.encode, mkauth (b64_roundtrip, mkauth_parses, standard_credential_wellformed, "
                   "standard_credentials_accepted_on_every_path: `Basic base64(utf8(u:p))` is accepted on every HTTP path with no "
                   "hypothesis on the token, passwords with ':' included), and the 401/407 page (auth_response_shape, "
-                  "deny_code_is_response_status), and fail-closedness under a validator that RAISES (raising_validator_fails_closed, "
+                  "deny_code_is_response_status); (round 4) NO library function of the token path is a parameter any more: "
+                  "bytes.decode('utf8','replace') and bytes.decode('utf-8','backslashreplace') are transcribed (CPython's maximal-"
+                  "subpart error ranges) and proved to invert str.encode on Unicode scalar values (utf8_roundtrip, "
+                  "utf8_roundtrip_backslashreplace, decodeCredStd_b2a), giving the closed forms mkauth_parses_closed, "
+                  "standard_credentials_accepted_on_every_path_closed and socks_standard_credentials_accepted (hypotheses: user "
+                  "without ':', scalar values — nothing about base64 / UTF-8 / whitespace / case folding); HtpasswdFile.__init__ "
+                  "(splitlines / strip / first-colon split / hash-format check) is transcribed and the end-to-end model parses the "
+                  "file content itself (htparse_entries_wellformed, htparse_bad_line_rejects); ProxyAuth.configure's dispatch is "
+                  "transcribed (configure_single_spec: the single-user validator exists exactly for values with one ':'); "
+                  "and fail-closedness under a validator that RAISES (raising_validator_fails_closed, "
                   "raising_validator_fails_closed_socks, accepts_iff_check_ok: the validator is modelled as returning an Except; "
                   "bcrypt.checkpw on > 72 bytes and an injected raising validator are driven end to end). Model = ProxyAuth (parse_http_basic_auth, validators any/single/htpasswd-table, "
                   "requestheaders / http_connect / socks5_auth, authenticated set, make_auth_required_response) composed with the "
@@ -421,11 +430,12 @@ class Check(PropertyCheck):
                   "before UpstreamAuth) is regenerated from the source into Gen and proved by addon_order_as_assumed.")
     level_note = ("trusted: Lean kernel; hand model tied differentially (validated, not verified). Library functions are "
                   "parameters of the model (Lib): str.isspace / str.lower tables regenerated from the running interpreter "
-                  "(Gen/C20.lean; the theorems about standard credentials are proved for exactly these tables), utf-8 'replace' "
-                  "DEcoding (the only part of the token path still a parameter: a2b_base64 / str.encode / str.split / lower are "
-                  "transcribed and tied by their own driver ops; the standard-credential theorems assume only that decoding inverts "
-                  "encoding on the text u:p), utf-8 'backslashreplace' decoding (SOCKS5), htpasswd {SHA} hashing — their answers "
-                  "are supplied to the driver per case. LDAP validator excluded (needs a server); bcrypt entries "
+                  "(Gen/C20.lean: isspace, lower, splitlines boundaries, addon order; the closed-form theorems are proved for exactly "
+                  "these tables); the htpasswd hash comparison (hashlib.sha1 / bcrypt.checkpw — third-party, incl. whether it "
+                  "raises) is the ONLY remaining library parameter, its answers are supplied to the driver per case. a2b_base64, "
+                  "b2a_base64, str.encode, both UTF-8 decoders, str.split/strip/splitlines, HtpasswdFile.__init__ and "
+                  "ProxyAuth.configure are transcriptions, each tied by its own driver op (b64, b2a, enc, dec, decbs, mkauth, "
+                  "htparse, conf) against CPython / mitmproxy on random and exhaustive small-scope inputs. LDAP validator excluded (needs a server); bcrypt entries "
                   "not generated. TLS inside tunnels and HTTP/2 are not driven (plain HTTP/1.1). Request bodies (Content-Length and "
                   "chunked, 0..5000 bytes in 1-4 segments) are driven under stream_large_bodies / body_size_limit / "
                   "store_streamed_bodies; the model knows one body fact: a declared Content-Length above body_size_limit is "
@@ -462,7 +472,7 @@ class Check(PropertyCheck):
                     "mitmproxy.addons.proxyauth:make_auth_required_response", "mitmproxy.addons.proxyauth:http_auth_header",
                     "mitmproxy.addons.proxyauth:is_http_proxy", "mitmproxy.addons.proxyauth:AcceptAll",
                     "mitmproxy.addons.proxyauth:SingleUser", "mitmproxy.addons.proxyauth:Htpasswd",
-                    "mitmproxy.utils.htpasswd:HtpasswdFile.check_password",
+                    "mitmproxy.utils.htpasswd:HtpasswdFile.check_password", "mitmproxy.utils.htpasswd:HtpasswdFile.__init__",
                     "mitmproxy.proxy.layers.modes:Socks5Proxy.state_greet", "mitmproxy.proxy.layers.modes:Socks5Proxy.state_auth",
                     "mitmproxy.proxy.layers.http:HttpStream.state_wait_for_request_headers",
                     "mitmproxy.proxy.layers.http:HttpStream.state_consume_request_body",
@@ -672,7 +682,15 @@ class Check(PropertyCheck):
     B64ALPHA = b"ABCDEFGHIJKLMNOPQRSTUVWXYZabcdefghijklmnopqrstuvwxyz0123456789+/"
 
     def gen_unit_case(self, rng):
-        k = rng.weighted([(5, "b64"), (2, "b2a"), (2, "enc"), (1, "mkauth"), (6, "dec")])
+        k = rng.weighted([(5, "b64"), (2, "b2a"), (2, "enc"), (1, "mkauth"), (6, "dec"), (4, "htparse"), (3, "conf")])
+        if k == "conf":
+            t = "".join(rng.pick(["any", "@", "lda", "u", ":", "p", "x/y", "an", " ", "é"]) for _ in range(rng.randint(0, 5)))
+            if t.startswith("ldap"): t = "x" + t            # (an ldap spec would try to reach a server)
+            return {"op": "conf", "text": None if rng.chance(0.05) else t}
+        if k == "htparse":
+            pieces = ["user", "v", ":", "{SHA}x", "$2b$y", "$2y$", "$2a$z", "$2c$", "#", " ", "\t", "\n", "\n", "\r", "\r\n", "\x0b",
+                      "\x0c", "\x1c", "\x1e", "\x1f", "\x85", "\u2028", "\xa0", "{SHA", "a:{SHA}b", "é"]
+            return {"op": "htparse", "text": "".join(rng.pick(pieces) for _ in range(rng.randint(0, 10)))}
         if k == "dec":
             # bytes.decode("utf8", "replace"): well-formed text damaged by truncation / insertion, boundary lead and
             # continuation bytes (overlong E0/F0 forms, encoded surrogates ED A0.., > U+10FFFF F4 90.., C0/C1/F5..FF)
@@ -718,6 +736,25 @@ class Check(PropertyCheck):
         if op == "b2a": return {"unit": hx(binascii.b2a_base64(unhx(case["data_hex"]), newline=False))}
         if op == "dec": return {"unit": cps(unhx(case["data_hex"]).decode("utf8", "replace"))}
         if op == "decbs": return {"unit": cps(unhx(case["data_hex"]).decode("utf-8", "backslashreplace"))}
+        if op == "conf":
+            from mitmproxy import exceptions
+            pa = proxyauth.ProxyAuth()
+            with taddons.context(pa) as tctx:
+                quiet_logging()
+                try: tctx.configure(pa, proxyauth=case["text"])
+                except exceptions.OptionsError as e:
+                    m = str(e); pre = "Could not open htpasswd file: "
+                    return {"unit": "ht " + cps(m[len(pre):]) if m.startswith(pre) else "invalid"}
+                v = pa.validator
+                if v is None: return {"unit": "off"}
+                if isinstance(v, proxyauth.AcceptAll): return {"unit": "any"}
+                if isinstance(v, proxyauth.SingleUser): return {"unit": f"single {cps(v.username)} {cps(v.password)}"}
+                return {"unit": "?" + type(v).__name__}
+        if op == "htparse":
+            from mitmproxy.utils.htpasswd import HtpasswdFile
+            try: us = HtpasswdFile(case["text"]).users
+            except ValueError: return {"unit": "err"}
+            return {"unit": "ok " + (",".join(cps(u) + "=" + cps(h) for u, h in us.items()) or "-")}
         if op == "enc": return {"unit": hx(case["text"].encode("utf-8"))}
         if op == "mkauth": return {"unit": cps(proxyauth.mkauth(case["u"], case["p"]))}
         if op == "resp":
@@ -895,7 +932,7 @@ class Check(PropertyCheck):
 
     # ------------------------------------------------------------------ property oracle (needs no model)
     def oracle(self, case, obs):
-        if case["op"] in ("parse", "b64", "b2a", "dec", "decbs", "enc", "mkauth", "resp"): return []
+        if case["op"] in ("parse", "b64", "b2a", "dec", "decbs", "enc", "mkauth", "resp", "htparse", "conf"): return []
         val = case["val"]
         fails = []
         if case["op"] == "hook":
@@ -1028,7 +1065,9 @@ class Check(PropertyCheck):
         k = val["k"]
         if k in ("none", "any"): base = k
         elif k == "single": base = f"single:{cps(val['u'])}:{cps(val['p'])}"
-        else: base = "table:" + ",".join(cps(u) + "=" + cps(h) for u, h in val["entries"])
+        else:
+            # the model parses the file itself (transcription of HtpasswdFile.__init__): it gets the content written to disk
+            base = "file:" + cps("# generated by harness/c20.py\n" + "".join(l + "\n" for l in ht_lines(val)))
         if val.get("raise_on"):
             base += ";raise;" + ",".join(cps(u) + "=" + cps(p) for u, p in val["raise_on"])
         return base
@@ -1042,6 +1081,8 @@ class Check(PropertyCheck):
         op = case["op"]
         if op in ("b64", "b2a", "dec", "decbs"): return [f"{op} {case['data_hex']}"]
         if op == "enc": return [f"enc {cps(case['text'])}"]
+        if op == "htparse": return [f"htparse {cps(case['text'])}"]
+        if op == "conf": return ["conf " + ("none" if case["text"] is None else cps(case["text"]))]
         if op == "mkauth": return [f"mkauth {cps(case['u'])} {cps(case['p'])}"]
         if op == "resp": return [f"resp {1 if case['proxy'] else 0}"]
         if case["op"] == "parse":
@@ -1067,7 +1108,10 @@ class Check(PropertyCheck):
         return page_digest(int(st), m.group(1) if m else b"?", unhx(name), unhx(value), body)
 
     def model_obs(self, case, replies):
-        if case["op"] in ("b64", "b2a", "dec", "decbs", "enc", "mkauth", "resp") or len(replies) == 1: return replies[0]
+        if case["op"] == "conf" and replies[0].startswith("ht "):
+            import pathlib                          # the real error message shows the path as pathlib renders it
+            return "ht " + cps(str(pathlib.Path(uncps(replies[0][3:])).expanduser()))
+        if case["op"] in ("b64", "b2a", "dec", "decbs", "enc", "mkauth", "resp", "htparse", "conf") or len(replies) == 1: return replies[0]
         pages = {"407": self.model_page(replies[1]), "401": self.model_page(replies[2])}
         toks = []
         for t in replies[0].split(" "):
